@@ -26,17 +26,21 @@ STATE = {"execs": 0, "completed": 0, "nontrivial": set(), "labels": {}, "violati
 @given(st.data())
 def target(data):
     draw = data.draw
+    STATE["attempts"] = STATE.get("attempts", 0) + 1
     cfg = ir.gen_cfg(draw, st)
     cfg["ignore"] = draw(st.booleans())
     n = draw(st.integers(1, 14))
     chk1, chk4 = c01.Checker(), c04.Checker()
     m = ir.Machine(cfg)
     g = ir.Gen(draw, st, m, p_out_of_domain=0.3 if cfg["ignore"] else 0.05, allow_ignore=True)
+    suppressed = cfg["ignore"]       # C01 only speaks about runs in which error checking was never switched off
     for _ in range(n):
         pos = len(m.stmts)
         g.step()
+        if '["ignore", true]' in json.dumps(m.stmts[pos:]):       # also inside guard / lazy bodies
+            suppressed = True
         for s in m.stmts[pos:]:
-            if not cfg["ignore"] and not m.ns.rt.ignore_errors():
+            if not suppressed:
                 chk1(m, s, None)
             chk4(m, s, None)
         if m.raised:
@@ -59,6 +63,8 @@ def one_input(data):
         STATE["violation"] = {"case": v.case, "msg": v.msg, "key": v.key}
         dump()
         raise
+    if STATE["execs"] % 250 == 0:
+        dump()          # libFuzzer ends the process with _exit: nothing runs afterwards
 
 
 def dump():
@@ -68,9 +74,6 @@ def dump():
         json.dump(j, f, default=str)
 
 
-import atexit  # noqa: E402
+dump()
 atheris.Setup(argv, one_input)
-try:
-    atheris.Fuzz()
-finally:
-    dump()
+atheris.Fuzz()
